@@ -157,7 +157,8 @@ pub fn run(args: &Args) {
     }
     // EVR tuples: exhaustive over a small component domain (incl. '-' and ':' inside fields, which
     // Evr::new accepts) through Ord, PartialEq and - where the text form is unambiguous - the string API
-    let epochs = ["", "0", "1", "01", "10", "a"];
+    // "a" / "0a": non-numeric epochs that differ by a leading zero only (unequal, and ordered by rpmvercmp)
+    let epochs = ["", "0", "1", "01", "10", "a", "0a"];
     let versions = ["1", "1.0", "1.00", "1_0", "a", "1~", "1^", "1-1", "1.a", ""];
     let releases = ["", "1", "1.a", "1-1", "2"];
     let mut tuples = vec![];
@@ -207,7 +208,7 @@ pub fn run(args: &Args) {
     // NEVRA tuples
     let names = ["a", "a-b", "b", "a.b"];
     let arches = ["x", "noarch", ""];
-    let small: Vec<(&str, &str, &str)> = vec![("", "1", "1"), ("0", "1", "1"), ("1", "1", "1"), ("", "1-1", "1"), ("", "1", "1-1"), ("", "2", "")];
+    let small: Vec<(&str, &str, &str)> = vec![("", "1", "1"), ("0", "1", "1"), ("1", "1", "1"), ("", "1-1", "1"), ("", "1", "1-1"), ("", "2", ""), ("a", "1", "1"), ("0a", "1", "1")];
     let mut ntuples = vec![];
     for n in names {
         for s in &small {
